@@ -1,6 +1,7 @@
 // C10 correspondence driver: FormatVersion operators and the open gate of FileHDF5.
 //   ops a1 a2 a3 b1 b2 b3           -> eq lt ne gt le ge canRead canWrite   (a is *this / the library)
 //   idx a1 a2 a3 i                  -> a[i]
+//   ctor n v1..vn                   -> x y z | asVector | operator<<   (the std::vector constructor; n != 3 throws)
 //   open x y z <rw|ro|ow> <force 0|1> <defect>
 //        defect: none | noformat | badformat | fmt=s:<hex> (format attribute set to that string) | noversion | noid | ver2 | ver4 | plainh5 | nonh5
 #include "common.hpp"
@@ -51,6 +52,18 @@ static std::string handle(const std::vector<std::string> &t) {
     if (t[0] == "idx") {
         nix::FormatVersion a({(int)dec_int(t[1]), (int)dec_int(t[2]), (int)dec_int(t[3])});
         o << a[(size_t)dec_u64(t[4])];
+        return o.str();
+    }
+    if (t[0] == "ctor") {            // ctor <n> <v1..vn>   FormatVersion(const std::vector<int>&), accessors, asVector, operator<<
+        std::vector<int> v;
+        for (size_t i = 0; i < (size_t)dec_int(t[1]); i++) v.push_back((int)dec_int(t[2 + i]));
+        nix::FormatVersion a(v);
+        std::vector<int> back = a.asVector();
+        std::ostringstream txt;
+        txt << a;
+        o << a.x() << " " << a.y() << " " << a.z() << " | " << back.size();
+        for (int x : back) o << " " << x;
+        o << " | " << txt.str();
         return o.str();
     }
     if (t[0] == "open") {
